@@ -74,7 +74,7 @@ func installAxioms(e *rangeEngine) {
 	e.siteOverride["calendar.(*Yun).computeStart|calendar.(*Solar).SubtractMinute"] = rangeVal(0, pinf).withAx(dd)
 	e.siteOverride["calendar.(*Yun).computeStart|calendar.(*Solar).Subtract"] = rangeVal(0, pinf).withAx(dd)
 	// after the hour borrow the day difference is still >= 0 (end is not before start as an instant)
-	e.siteOverride["calendar.(*Yun).computeStart|phi:dayDiff"] = rangeVal(0, pinf).withAx(dd)
+	e.siteOverride["calendar.(*Yun).computeStart|phi-of:calendar.(*Solar).Subtract"] = rangeVal(0, pinf).withAx(dd)
 	e.fieldOverride["DaYun.startAge"] = rangeVal(1, 20000).withAx(axBit("AX-AGE"))
 	api := axBit("AX-API")
 	e.fieldOverride["SolarWeek.start"] = rangeVal(0, 6).withAx(api)
